@@ -1332,6 +1332,9 @@ class Interp:
     def call_by_contract(self, ref, c, args, kwargs, node):
         """Modular call: check requires, havoc the frame, assume ensures / raise as declared."""
         fnode = ref.node
+        if c.assumed:
+            self.world.trusted_used.add(f"assumed (unverified) contract of {ref.qual}: "
+                                        f"ensures {c.ensures}, raises {c.raises}")
         env = self.bind_params(fnode, args, dict(kwargs), node, ref)
         st = self.st
         site = f"{_src(node.func) if isinstance(node, ast.Call) else ref.qual}"
